@@ -119,9 +119,15 @@ def cmd_run_alt(args, tier="quick"):
         assert sh(f"git -C /repo worktree add --detach {wt} HEAD").returncode == 0
         results = m.setdefault("check_results", {})
         try:
+            results.pop("error", None)
             a = sh(f"git apply {os.path.join(d, 'patch.diff')}", cwd=wt)
             if a.returncode != 0:
-                results["error"] = "patch does not apply: " + a.stderr[-200:]
+                # the tree has moved on since the patch was written (later fix: commits): merge it
+                a = sh(f"git apply --3way {os.path.join(d, 'patch.diff')}", cwd=wt)
+                if a.returncode == 0:
+                    results["applied"] = "with --3way (the tree has moved on since the patch was written)"
+            if a.returncode != 0 or sh("go build ./...", cwd=wt).returncode != 0:
+                results["error"] = "patch does not apply to the current tree: " + a.stderr[-200:]
             else:
                 for p in props:
                     t0 = time.time()
